@@ -89,6 +89,9 @@ func runCtxCase(w *wctx, c ctxCase) {
 		}
 		var serr, gerr error
 		var got interface{}
+		if v.label == "1<<31" {
+			hugeBegin()
+		}
 		g := guard(func() {
 			if serr = s.SetOption(c.name, v.v); serr != nil {
 				return
@@ -100,6 +103,9 @@ func runCtxCase(w *wctx, c ctxCase) {
 			}
 			got, gerr = ctx.GetOption(c.name)
 		})
+		if v.label == "1<<31" {
+			hugeEnd(!g.bad() && serr == nil)
+		}
 		go closeAll(s)
 		if g.bad() || serr != nil {
 			continue // panics / rejected values belong to the grid scenario
@@ -126,6 +132,7 @@ func ctxScenario() *scenario {
 		par:    8,
 		ncases: func(string) int { return len(ctxCases()) },
 		run:    func(tier string, idx int, w *wctx) { runCtxCase(w, ctxCases()[idx]) },
+		huge:   func(tier string, idx int) bool { return isQLenName(ctxCases()[idx].name) },
 	}
 }
 
